@@ -267,6 +267,9 @@ def check(seed, p, ops=None):
         elif ln.startswith('B '):
             _, i, e, ms = ln.split(' ')
             curb[(int(i), int(e))] = ms
+        elif ln.startswith('T '):
+            _, i, e, rec, spec = ln.split(' ')
+            curb[('tgts', int(i), int(e))] = (rec, spec)
         elif ln.startswith('bad-op'):
             raise C.InfraError('micro driver: ' + ln)
     if len(answers) != len(impl) or len(banswers) != len(impl):
@@ -284,6 +287,13 @@ def check(seed, p, ops=None):
     # derives from the buff id attributes and the templates
     for k, (mb, ib) in enumerate(zip(banswers, buffs_impl)):
         for key, ms in mb.items():
+            if key[0] == 'tgts':
+                stats['buff_target_sets_compared'] = stats.get('buff_target_sets_compared', 0) + 1
+                # a boost without registered modifiers records no targets (nothing is applied for it)
+                if ms[0] != ms[1] and mb.get(key[1:], '-') not in ('-', 'err'):
+                    return done, {'where': 'L2:buff-targets', 'step': k, 'op': done[k], 'projector': key[1:],
+                                  'model': ms[0], 'impl': ms[0], 'spec': ms[1]}, stats
+                continue
             if ms == 'err':
                 stats['buff_spec_err'] = stats.get('buff_spec_err', 0) + 1
                 continue
